@@ -394,6 +394,17 @@ func (s *Sys[M, A, V, E]) CheckBatch(r *verifmc.Run, v VDAF[M, A, V, E], inst pr
 	}
 }
 
+// Narrow reports the 32-bit configuration (GOARCH=386, about 3x slower): there the units keep what can
+// depend on the word size (constructor tables, wide instances, InvUint64) and drop the rest.
+func Narrow() bool { return os.Getenv("VERIF_CONFIG") == "x86_32" }
+
+// SkipNarrow skips a unit under the 32-bit configuration (call before verifmc.Start).
+func SkipNarrow(t interface{ Skip(...interface{}) }) {
+	if Narrow() {
+		t.Skip("unit not run under x86_32: nothing in it depends on the word size beyond what the _agg/_ctor units cover")
+	}
+}
+
 // Batches calls f for every ordered batch of size 0..maxLen over dom.
 func Batches(dom [][]uint64, maxLen int, f func(batch [][]uint64)) {
 	var rec func(cur [][]uint64)
@@ -434,8 +445,24 @@ func (s *Sys[M, A, V, E]) UnitAgg(r *verifmc.Run, t interface{ Fatalf(string, ..
 		"(complete domain when it has <= domain_limit values, else the declared sub-alphabet with the extremes) is run through shard, " +
 		"prepare at every aggregator, aggregate, unshard on the real code and compared with the plain integer aggregate; non-trivial = each distinct case")
 	s.checkOrder(t, plan.Insts[0])
+	if Narrow() {
+		// 32-bit build: the first instance plus every wide one (MEAS_LEN > 32: measurements or entries >= 2^32),
+		// 2 and 3 aggregators with batches up to 2, 9 aggregators over the extremes, one seed entry, one history instance.
+		keep := []prio.Inst{plan.Insts[0]}
+		for _, i := range plan.Insts[1:] {
+			if i.MeasLen() > 32 {
+				keep = append(keep, i)
+			}
+		}
+		plan.Insts, plan.FullShares, plan.LightShares = keep, []int{2, 3}, []int{9}
+		plan.MaxBatch, plan.RTMaxBatch, plan.Seeds, plan.SweepInsts = 2, 2, 1, nil
+		if len(plan.HistoryInsts) > 1 {
+			plan.HistoryInsts = plan.HistoryInsts[:1]
+		}
+		r.Set("narrowed_for_32_bit", "first instance + instances with MEAS_LEN > 32; no aggregator sweep")
+	}
 	nSeeds := plan.Seeds
-	if n := NumSeeds(r.Seed()); nSeeds > n || r.Seed() != 0 {
+	if n := NumSeeds(r.Seed()); nSeeds > n || (r.Seed() != 0 && !Narrow()) {
 		nSeeds = n
 	}
 	type job struct {
